@@ -95,3 +95,12 @@ for ts in (1, 2, 3, 4):
        tiers=('quick', 'thorough') if ts <= 2 else ('thorough',), functions=['print_string_ptr', 'ensure', 'parse_string', 'utf16_literal_to_utf8', 'parse_hex4'])
 QM(('C04', 'C05', 'C09'), 'pnum', 'harness/print_num.c', unwind=28, unwindset=ML(42) + ['vf_put_ulong.0:12', 'vf_put_ulong.1:12', 'vf_sprintf.0:28', 'vf_sprintf.1:28', 'vf_sprintf.2:28', 'vf_sprintf.3:28', 'strlen.0:8', 'memcmp.0:8'],
    cost=30, functions=['print_number', 'compare_double', 'ensure', 'get_decimal_point'], timeout=900, native_search=True)
+QM(('C05', 'C09'), 'pleaf', 'harness/print_leaf.c', unwind=8, unwindset=ML(26), stub=['print_value', 'print_number', 'print_string_ptr', 'print_array', 'print_object'], cost=3,
+   functions=['print_value', 'print_string', 'ensure'])
+ENTFN = ['cJSON_PrintPreallocated', 'cJSON_Print', 'cJSON_PrintUnformatted', 'cJSON_PrintBuffered', 'print', 'ensure', 'update_offset', 'cJSON_InitHooks', 'cJSON_free']
+for n in (0, 1, 2, 3, 6, 8, 13):
+    QM(('C09', 'C05'), 'pentry.prealloc.N%d' % n, 'harness/print_entry.c', defs=['-DAPI=0', '-DN=%d' % n], unwind=10, unwindset=ML(16), stub=['print_value'], cost=2, functions=ENTFN)
+for api in (1, 2):
+    for hk in (0, 1, 2, 3):
+        QM(('C04', 'C05', 'C07', 'C08', 'C14'), 'pentry.api%d.hooks%d' % (api, hk), 'harness/print_entry.c', defs=['-DAPI=%d' % api, '-DHOOKS=%d' % hk], unwind=10, unwindset=ML(16) + ['vf_memcpy.0:66'], stub=['print_value'],
+           cost=10, functions=ENTFN, tiers=('quick', 'thorough') if hk <= 1 else ('thorough',))
